@@ -142,6 +142,32 @@ def _cmp(run, M, rule, q, ref_src, loop_hook=None, hook=apod_hook):
     return f, code
 
 
+def psf_instances_equal(M):
+    """toeplitz_psf compared with its documented form for concrete ranks (1-3 transform dimensions, with and without a batch axis) and
+    symbolic sizes: with the rank fixed, index lists, loops and comprehensions evaluate to plain tuples, so different spellings of the
+    impulse index (negative-index stores into a list / concatenation of slices and centres) become the same term"""
+    from ..vn import unroll_loop
+    f = M.func("sigpy.fourier.toeplitz_psf")
+    for ndim, nbatch in ((1, 0), (2, 0), (3, 0), (1, 1), (2, 1), (2, 2)):
+        shape = tuple(T.sym("n%d" % i, real=True) for i in range(ndim + nbatch))
+        res = []
+        for body in (f.body, ast.parse(REF_PSF.strip()).body):
+            class PVN(VN):
+                def ev_Subscript(self, e, st):
+                    if unparse(e) == "coord.shape[-1]":
+                        return T.const(ndim)
+                    return VN.ev_Subscript(self, e, st)
+            vn = PVN(M, f, call_hook=apod_hook, real=REAL, loop_hook=unroll_loop, inline={"sigpy.fourier._get_oversamp_shape"})
+            try:
+                outs = [o for o in vn.run(body, State({"shape": shape})) if o.status == "return"]
+            except (Unrecognised, TypeError, KeyError):
+                return False
+            res.append(sorted(repr(T.enc(vn._as_term(o.ret))) for o in outs))
+        if not res[0] or res[0] != res[1]:
+            return False
+    return True
+
+
 def check(run, M, tier):
     run.rule("U1", "nufft and nufft_adjoint equal the documented step sequences (apodise / N^-1/2 / zero-pad / unnormalised centred FFT over the last ndim axes / "
                    "Kaiser-Bessel interpolate at scaled coordinates / width^-ndim, and the mirror with prod(os_shape) N^-1/2)")
@@ -197,7 +223,11 @@ def check(run, M, tier):
     al = [n for n in ast.walk(fa.node) if isinstance(n, ast.AugAssign) and isinstance(n.op, ast.Mult) and isinstance(n.target, ast.Name) and n.target.id in aliases]
     run.check(len(al) >= 1, "U1", "_apodize in-place contract", fa.loc(), "_apodize works on the caller's buffer (callers pass a private copy)",
               "_apodize no longer scales the array it is given in place, but nufft/nufft_adjoint discard its return value", stmt="U1:apod-inplace")
-    _cmp(run, M, "U4", "sigpy.fourier.toeplitz_psf", REF_PSF, loop_hook=havoc_loop)
+    if psf_instances_equal(M):
+        run.ok("U4", "sigpy.fourier.toeplitz_psf", "equals the documented pipeline for every rank instance (1-3 transform dimensions, 0-2 batch axes, symbolic sizes)",
+               M.func("sigpy.fourier.toeplitz_psf").loc())
+    else:
+        _cmp(run, M, "U4", "sigpy.fourier.toeplitz_psf", REF_PSF, loop_hook=havoc_loop)
     # U5 the interpolation kernel nufft relies on (anchor: Kaiser-Bessel kernel via the polynomial I0 approximation)
     from .c07 import check_kernel_functions
     check_kernel_functions(run, M, "U5", names=("_kaiser_bessel_kernel",))
